@@ -67,6 +67,10 @@ class VirtualLoop(asyncio.SelectorEventLoop):
 def run_virtual(coro_factory):
     """Run coro_factory() to completion on a fresh VirtualLoop; returns (result, loop)."""
     loop = VirtualLoop()
+    from vf import env as _env
+
+    if _env.EAGER_TASKS[0]:
+        loop.set_task_factory(asyncio.eager_task_factory)  # (see env.eager_tasks)
     asyncio.set_event_loop(loop)
     try:
         return loop.run_until_complete(coro_factory()), loop
